@@ -418,6 +418,47 @@ def _var_comp(v, comp):
     return v[tuple(comp)] if comp else v
 
 
+_COMPLEX_UNSAFE = ("Abs", "Conditional", "MinValue", "MaxValue", "Sqrt", "Ln", "Power", "Atan2", "Acos", "Asin",
+                   "Atan", "Erf", "Tan", "Tanh", "Sin", "Cos", "Exp", "Sinh", "Cosh", "BesselJ", "BesselY",
+                   "BesselI", "BesselK")
+
+
+def _install_complex_eval():
+    """Let pyden evaluate Conj/Real/Imag on jets with complex coefficients when the environment asks
+    for it (env.complex_mode); the real-mode behaviour of pyden is unchanged."""
+    import pyden
+    if getattr(pyden, "_c02_complex_installed", False):
+        return
+    orig = pyden._ev1
+
+    def cmap(j, fn):
+        c = {a: fn(v) for a, v in j.c.items()}
+        return pyden.Jet(j.nv, j.order, {a: v for a, v in c.items() if v != 0})
+
+    def ev1(e, env, rho, c, side, memo):
+        n = type(e).__name__
+        if getattr(env, "complex_mode", False) and n in ("Conj", "Real", "Imag"):
+            a = pyden._ev(e.ufl_operands[0], env, rho, tuple(c), side, memo)
+            if n == "Conj":
+                return cmap(a, lambda v: complex(v).conjugate())
+            if n == "Real":
+                return cmap(a, lambda v: complex(v).real)
+            return cmap(a, lambda v: complex(v).imag)
+        return orig(e, env, rho, c, side, memo)
+
+    pyden._ev1 = ev1
+    pyden._c02_complex_installed = True
+
+
+def _complex_safe(*exprs):
+    from ufl.corealg.traversal import unique_pre_traversal
+    for e in exprs:
+        for o in unique_pre_traversal(e):
+            if type(o).__name__ in _COMPLEX_UNSAFE:
+                return False
+    return True
+
+
 def derivative_oracle(F, out, variation, trials=20, seed=0, nv=2, prefix_rank=None, variation2=None):
     """Independent definition of the derivative: evaluate F with every terminal T replaced by
     T + tau * variation(T) on jets with an extra variable tau, take d/dtau at tau = 0 (twice, with
@@ -436,6 +477,7 @@ def derivative_oracle(F, out, variation, trials=20, seed=0, nv=2, prefix_rank=No
         def __init__(self, seed, positive=False):
             super().__init__(nv=NV, order=ORDER, seed=seed, positive=positive)
             self.perturb = False
+            self.complex_mode = False
 
         def field(self, key, constant=False):
             if key in self.cache:
@@ -444,6 +486,8 @@ def derivative_oracle(F, out, variation, trials=20, seed=0, nv=2, prefix_rank=No
             c = {a: v for a, v in j.c.items() if all(x == 0 for x in a[nv:])}
             if not c.get((0,) * NV):
                 c[(0,) * NV] = 1
+            if self.complex_mode:
+                c = {a: complex(float(v), self.rng.randint(-4, 4) / 2.0) for a, v in c.items()}
             j = pyden.Jet(NV, ORDER, c)
             self.cache[key] = j
             return j
@@ -471,9 +515,15 @@ def derivative_oracle(F, out, variation, trials=20, seed=0, nv=2, prefix_rank=No
                 base = base + tau * val
             return base
 
+    from ufl.algorithms.apply_algebra_lowering import apply_algebra_lowering
+    F = apply_algebra_lowering(F)          # inner/outer: make the conjugations explicit
+    use_complex = _complex_safe(F, out)
+    if use_complex:
+        _install_complex_eval()
     comps = comps_of(out.ufl_shape)
     for t in range(trials):
         env = PEnv(rng.randrange(10 ** 9), positive=(t % 2 == 1))
+        env.complex_mode = use_complex and t >= trials // 2
         for rho in pyden.free_index_valuations(out, rng, 2):
             for c in comps:
                 cf = c if prefix_rank is None else c[:prefix_rank]
